@@ -44,7 +44,9 @@ pub fn uci_struct_roundtrip<S: Src, const SIDE: u8, const KG: u8>(s: &mut S) {
     vcover!("promotion capture", m.kind >= K_PN && p.cells[m.dst as usize] != 0);
 }
 
-/// FULL x every uci::Move value: accepted (semilegal / legal) <=> such a move exists
+/// FULL x every uci::Move value: accepted (semilegal / legal) <=> such a move exists.
+/// "exists" is decided with ONE symbolic kind k standing for all ten (soundness from the move the
+/// reader returns, completeness from the universally quantified k) instead of a ten-way loop.
 pub fn uci_accept_exact<S: Src, const SIDE: u8>(s: &mut S) {
     crate::stubs::draw_hash_pool(s);
     let b = match any_board(s, SIDE) {
@@ -61,46 +63,44 @@ pub fn uci_accept_exact<S: Src, const SIDE: u8>(s: &mut S) {
     } else {
         uci::Move::Move { src: Coord::from_index(src as usize), dst: Coord::from_index(dst as usize), promote: promote_of(pr) }
     };
-    // exists a semilegal / legal move with that source, destination and promotion
-    let cell = p.cells[src as usize];
-    let mut ex_semi = false;
-    let mut ex_legal = false;
-    let mut which = M { kind: 0, cell: 0, src: 0, dst: 0 };
-    if !is_null {
-        let mut k = 1u8;
-        while k <= 9 {
-            let matches_promo = if pr == 0 { k < K_PN } else { k == promo_kind(pr) };
-            let m = M { kind: k, cell, src, dst };
-            if matches_promo && semilegal_ref(&p, m) {
-                // at most one kind is pseudo-legal for a given (piece, source, destination, promotion)
-                ex_semi = true;
-                which = m;
-            }
-            k += 1;
-        }
-        ex_legal = ex_semi && legal_ref(&p, which);
-    }
-    let semi = match u.into_move(&b) {
+    let read = u.into_move(&b);
+    let semi = match read {
         Ok(mv) => mv.semi_validate(&b).is_ok(),
         Err(_) => false,
     };
-    let legal = match u.into_move(&b) {
+    let legal = match read {
         Ok(mv) => mv.validate(&b).is_ok(),
         Err(_) => false,
     };
-    vnote!("fen={} uci={:?} semi={} legal={} exists_semi={} exists_legal={}", b.as_fen(), u, semi, legal, ex_semi, ex_legal);
-    vassert!("semilegal reader succeeds exactly when such a semilegal move exists", semi == ex_semi);
-    vassert!("legal reader succeeds exactly when such a legal move exists", legal == ex_legal);
-    if semi {
-        vassert!("the move read is that move", u.into_move(&b) == Ok(mv_of(which)));
+    // a symbolic candidate with that source, destination and promotion: any non-null kind
+    let k = 1 + s.below(9);
+    let cand = M { kind: k, cell: p.cells[src as usize], src, dst };
+    let promo_ok = if pr == 0 { k < K_PN } else { k == promo_kind(pr) };
+    let cand_semi = !is_null && promo_ok && semilegal_ref(&p, cand);
+    let cand_legal = cand_semi && legal_ref(&p, cand);
+    vnote!("fen={} uci={:?} read={:?} semi={} legal={} candidate={:?} cand_semi={} cand_legal={}", b.as_fen(), u, read, semi, legal, mv_of(cand), cand_semi, cand_legal);
+    // completeness: every semilegal / legal move with these fields is what the readers return
+    vassert!("semilegal reader succeeds whenever such a semilegal move exists, and returns it", !cand_semi || (semi && read == Ok(mv_of(cand))));
+    vassert!("legal reader succeeds whenever such a legal move exists", !cand_legal || legal);
+    // soundness: what the readers accept is such a move
+    if let Ok(mv) = read {
+        let m = m_of(mv);
+        if semi {
+            vassert!("semilegal reader accepts only a semilegal move with that source, destination and promotion",
+                !is_null && semilegal_ref(&p, m) && m.src == src && m.dst == dst && (if pr == 0 { m.kind < K_PN } else { m.kind == promo_kind(pr) }));
+        }
+        if legal {
+            vassert!("legal reader accepts only a legal move", legal_ref(&p, m));
+        }
     }
-    // applying the value: accepted iff legal; null never accepted
+    vassert!("legal implies semilegal", !legal || semi);
+    // applying the value: accepted iff the legal reader accepts; null never accepted
     let made = u.make(&b);
-    vassert!("a UCI value is applied exactly when it denotes a legal move (null never)", made.is_ok() == ex_legal);
+    vassert!("a UCI value is applied exactly when the legal reader accepts it (null never)", made.is_ok() == legal && !(is_null && made.is_ok()));
     vcover!("null value", is_null);
-    vcover!("legal promotion", ex_legal && pr != 0);
-    vcover!("semilegal but illegal", ex_semi && !ex_legal);
-    vcover!("promotion letter on a non-promoting move", !ex_semi && pr != 0 && cell != 0);
+    vcover!("legal promotion", legal && pr != 0);
+    vcover!("semilegal but illegal", semi && !legal);
+    vcover!("promotion letter on a non-promoting move", !semi && pr != 0 && p.cells[src as usize] != 0);
 }
 
 /// position-free: every UTF-8 string of <= 6 bytes: accepted <=> [a-h][1-8][a-h][1-8][nbrq]? | 0000
